@@ -101,10 +101,10 @@ impl AutoReloader {
             {
                 verif_checked = true;
             }
-            let weak_notifier = self.notifier.prepare_and_mark_reload()?;
+            let (weak_notifier, fast_reload) = self.notifier.prepare_and_mark_reload()?;
             #[cfg(feature = "verif_hooks")]
             verif_hooks::yield_at(verif_hooks::Point::AfterReset);
-            if mutex_guard.is_none() || !self.notifier.fast_reload() {
+            if mutex_guard.is_none() || !fast_reload {
                 #[cfg(feature = "verif_hooks")]
                 verif_hooks::yield_at(verif_hooks::Point::BeforeCreate);
                 match (self.env_creator)(weak_notifier) {
@@ -311,14 +311,6 @@ impl Notifier {
         }
     }
 
-    fn fast_reload(&self) -> bool {
-        let Some(handle) = self.handle() else {
-            return false;
-        };
-        let inner = handle.lock().unwrap();
-        inner.fast_reload
-    }
-
     fn should_reload(&self) -> bool {
         let Some(handle) = self.handle() else {
             return false;
@@ -387,20 +379,26 @@ impl Notifier {
             }));
     }
 
-    fn prepare_and_mark_reload(&self) -> Result<Notifier, Error> {
+    /// Marks the reload as started.  Whether this is a fast reload is decided here,
+    /// once: the file system watcher is only thrown away when the creator function is
+    /// going to run again (and re-register its paths), so the caller must use the
+    /// returned decision rather than reading `fast_reload` a second time.
+    fn prepare_and_mark_reload(&self) -> Result<(Notifier, bool), Error> {
         let handle = self.handle().expect("notifier unexpectedly went away");
-        #[cfg(feature = "watch-fs")]
-        {
+        let fast_reload = {
+            #[allow(unused_mut)]
             let mut locked_handle = handle.lock().unwrap();
+            #[cfg(feature = "watch-fs")]
             if !locked_handle.persistent_fs_watcher && !locked_handle.fast_reload {
                 locked_handle.fs_watcher.take();
             }
-        }
+            locked_handle.fast_reload
+        };
         let weak_notifier = Notifier {
             handle: NotifierImplHandle::Weak(Arc::downgrade(&handle)),
         };
         handle.lock().unwrap().should_reload = false;
-        Ok(weak_notifier)
+        Ok((weak_notifier, fast_reload))
     }
 
     fn keep_reload_pending(&self) {
